@@ -153,7 +153,7 @@ def check_msg_ser(ctx, oid="C17.4"):
     R.check(oid, "TABLE", fi, "MAX_SIZE = 32 MiB", mx == 0x02000000, "MAX_SIZE = %s" % tm.show(mx), nontrivial=False)
     for L, want_k in ((0x02000000, "return"), (0x02000001, "raise")):
         ev.bind = {tm.length(payload): L}
-        k, v = rules.decided_outcome(ev.run(fi, {"start_bytes": start, "command": b"ping", "payload": payload}, use_defaults=True))
+        k, v = rules.strict_outcome(ev.run(fi, {"start_bytes": start, "command": b"ping", "payload": payload}, use_defaults=True))
         R.check(oid, "DOM", fi, "payload of %#x bytes %s" % (L, "accepted" if want_k == "return" else "refused"), k == want_k, "msg_ser with a %#x-byte payload: %s" % (L, k))
     ev.bind = {}
 
